@@ -50,7 +50,7 @@ type Out struct {
 }
 
 func NewOut(dir, stream string, seed uint64, tier string) *Out {
-	o := &Out{seen: map[string]bool{}, maxFails: 50}
+	o := &Out{seen: map[string]bool{}, maxFails: 400}
 	o.meta = Meta{Stream: stream, Seed: seed, Tier: tier, Stats: map[string]int{}, ProbeChecks: map[string]int{}}
 	for _, ext := range []string{".req", ".impl"} {
 		f, err := os.Create(filepath.Join(dir, stream+ext))
